@@ -1,7 +1,8 @@
 --------------------------- MODULE MC_PluginOrder ---------------------------
 EXTENDS PluginOrder
-RegVersionsBig == {<<1, 0, 0>>, <<1, 2, 0>>, <<1, 2, 3>>, <<2, 0, 0>>, <<0, 9, 1>>, <<1, 10, 0>>}
-RegVersionsDef == {<<1, 0, 0>>, <<1, 2, 0>>, <<1, 2, 3>>, <<2, 0, 0>>, <<0, 9, 1>>}
+RegVersionsBig == {<<1, 0, 0>>, <<1, 2, 0>>, <<1, 2, 3>>, <<2, 0, 0>>, <<0, 9, 1>>, <<1, 10, 0>>, <<10, 0, 0>>}
+(* components with different digit counts inside one major version (1.2 < 1.10) and across (0.9 < 1.x < 2.0) *)
+RegVersionsDef == {<<1, 10, 0>>, <<1, 2, 0>>, <<1, 2, 3>>, <<2, 0, 0>>, <<0, 9, 1>>}
 (* the transitivity of the order over all triples is checked once, as an assumption *)
 ASSUME Transitive
 =============================================================================
